@@ -320,12 +320,12 @@ def _shards(n):
 
 
 HARNESSES = [
-    H(hist3, shards=_shards(3), timeout={"quick": 60, "thorough": 300}, tiers=("quick", "thorough")),
+    H(hist3, shards=_shards(3), timeout={"quick": 100, "thorough": 300}, tiers=("quick", "thorough")),
     H(two_mods, shards=lambda tier: [("opA == %d" % x, "opB == %d" % y, "whB == %d" % w) + tg
                                      for x in (2, 3) for y in (1, 2, 3) for w in (0, 1, 3)
                                      for tg in ([("tgA == tgB",)] if tier == "quick" else
                                                 [("tgA == tgB",), ("tgA != tgB",)])],
-      timeout={"quick": 60, "thorough": 300},
+      timeout={"quick": 100, "thorough": 300},
       note="quick: both modifications hit the same call (accumulated delayed_time); thorough: any targets"),
     H(hist4, shards=_shards(4), timeout={"quick": 60, "thorough": 1200}, tiers=("thorough",)),
     H(plain5, timeout={"quick": 60, "thorough": 1200}, tiers=("thorough",)),
